@@ -38,7 +38,7 @@ func checkC18(c *Ctx) {
 		"(W2-paths) every os mutation in Write acts on a path that is classified (target only as Rename destination; base only MkdirAll; *prev only Remove/RemoveAll; version dir; temporary link), anything else is UNDECIDED. " +
 		"(W2-fresh) the version directory name contains a per-call unique component (time.Now at nano/microsecond resolution or a temp/random name). " +
 		"(W2-frozen) Dir.target/base/targetDir are stored only by dir.New with base=filepath.Dir(T), targetDir=filepath.Base(T), target=T, and Dir.prev only by Write. " +
-		"(W3-leftover) every create-type call that fails with EEXIST (Symlink/Link/Mkdir) on a path that is identical on every call is preceded on all paths by a removal of that path (or its failure is inspected). " +
+		"(W3-leftover) every create-type call that fails with EEXIST (Symlink/Link/Mkdir) on a path that is identical on every call is preceded on all paths by a removal of that path; if it is not, a may-dataflow follows the fact 'the creation may have failed because a leftover exists and the path was not re-created since' (dropped where the error is known nil, known not to be ErrExist via errors.Is/os.IsExist/IsNotExist, or on the success edge of a later creation of the same link): reaching the consuming rename with that fact is a VIOLATION (the stale link of the crashed call is published and nil returned), never reaching it without a re-creation is the 'file exists forever' VIOLATION, a successful re-creation discharges it; error handling that cannot be classified, or an os.Readlink comparison, is UNDECIDED. " +
 		"(S1, NOTE only) spiffe.fetchIdentityCertificate hands key, chain and anchors to one Write call in one map. " +
 		"NOT decided: the actual file-system states at each crash point, durability (no fsync is demanded), the atomicity of rename(2) and symlink semantics of the OS (assumed), concurrent Writes on one Dir or two Dirs on one target, version directories orphaned by a crash (the statement only asks for cleanup without crashes), relative target paths, clock steps backwards."
 	r.Assumptions = append(r.Assumptions,
@@ -53,7 +53,7 @@ func checkC18(c *Ctx) {
 	r.Rule(R.Paths, "every mutated path is target(rename dest only)/base(MkdirAll only)/*prev(remove only)/version dir/temporary link", 6)
 	r.Rule(R.Fresh, "version directory name unique per call", 1)
 	r.Rule("C18.W2-frozen", "Dir.target/base/targetDir written only by New (Dir(T)/Base(T)/T); prev only by Write", 4)
-	r.Rule(R.Leftover, "EEXIST-failing creation on a call-invariant path is preceded by its removal", 1)
+	r.Rule(R.Leftover, "EEXIST-failing creation on a call-invariant path is preceded by its removal, or the link is provably created again after the failure; tolerating/ignoring EEXIST is a violation (stale link published)", 1)
 	r.Rule("C18.S1-spiffe", "(NOTE only) fetchIdentityCertificate: one Write call with one map literal", 1)
 
 	write := p.Func("concurrency/dir", "Dir.Write")
